@@ -20,7 +20,7 @@ PROPS["C02"]["assumptions"] = [
 # tie of BV/Model/StreamJob.lean (observed, jobParams, streamJob) for C02: the sjob lines of engine favor
 PROPS["C02"]["stages"] = PROPS["C02"]["stages"] + [{"name": "favor", "cmd": ["favor"]}]
 PROPS["C02"]["rule"] = PROPS["C02"]["rule"] + (
-    " Stage favor (shared with C06), sjob lines: fresh-encoder jobs (job 0 at quality 0..9, any job at quality 0/1, empty prefixes, and quality 0/1 jobs whose buffer is too small) run through the REAL compress_part and through a recorded replica of its encoder calls; the model streamJob = compressPart over the stream machine with the recorded payload answers as oracle must return the same Ok(bytes)/Err (ties `observed` / `jobParams` / `streamJob` of BV/Model/StreamJob.lean, over which part_of_stream_model is stated).")
+    " Stage favor (shared with C06), sjob lines: fresh-encoder jobs (job 0 at quality 0..11, any job at quality 0/1, empty prefixes, and quality 0/1 jobs whose buffer is too small) run through the REAL compress_part and through a recorded replica of its encoder calls; the model streamJob = compressPart over the stream machine with the recorded payload answers as oracle must return the same Ok(bytes)/Err (ties `observed` / `jobParams` / `streamJob` of BV/Model/StreamJob.lean, over which part_of_stream_model is stated).")
 PROPS["C02"]["trusted_base"] = PROPS["C02"]["trusted_base"] + [
     "BV/Model/StreamJob.lean (compress_part's loop over the stream machine; tied by the sjob lines of harness/src/favor.rs) and, through it, the stream model BV/Model/Stream.lean of C20/C13"]
 
